@@ -52,8 +52,11 @@ class Likelihood(ABC):
         else:
             raise ValueError("Given forward_model_jacobian object must be callable")
 
-        self.y = array(y_data).squeeze()
-        _uncertainties = array(uncertainties).squeeze()
+        # (held as float64 whatever numeric type they are given in: the cached inverse
+        # uncertainties and normalisation would otherwise be computed in that type -
+        # log() of a uint8 array is float16, and 1.0 / float32 stays float32)
+        self.y = array(y_data, dtype=float).squeeze()
+        _uncertainties = array(uncertainties, dtype=float).squeeze()
         setattr(self, uncertainties_name, _uncertainties)
         self.model = forward_model
 
